@@ -41,6 +41,10 @@ class Unsupported(Exception):
     """the executor met something it has no semantics for: the check is inconclusive, never a pass"""
 
 
+class TooManyPaths(Exception):
+    """the program has more paths than the stated per-program bound: outside the claim, counted"""
+
+
 class Deadline(Exception):
     """per-program time budget used up: undecided, never a pass"""
 
@@ -196,7 +200,7 @@ class Explorer:
         paths = []
         while self.work:
             if len(paths) >= self.max_paths:
-                raise Unsupported("more than %d paths" % self.max_paths)
+                raise TooManyPaths("more than %d paths" % self.max_paths)
             prefix = self.work.pop()
             o = Oracle(self, prefix)
             try:
